@@ -30,6 +30,7 @@ import (
 	"github.com/tikv/pd/server/kv"
 	"github.com/tikv/pd/server/schedule/placement"
 	"go.etcd.io/etcd/clientv3"
+	pb "go.etcd.io/etcd/etcdserver/etcdserverpb"
 	"verif/checks/srvh"
 	"verif/engine/fakeetcd"
 	"verif/engine/hist"
@@ -113,9 +114,22 @@ type noCluster struct{}
 
 var errNoCluster = errors.New("verif: the fake etcd has no membership API")
 
+// membersListed is set while SetPDServerConfig runs (it asks whether a dashboard address is a
+// member's client URL); for everybody else listing the members fails as before (the grpc
+// GetMembers handler needs the embedded etcd server, which does not exist here).
+var membersListed bool
+
 func (noCluster) MemberList(context.Context) (*clientv3.MemberListResponse, error) {
-	return nil, errNoCluster
+	if !membersListed {
+		return nil, errNoCluster
+	}
+	// the server itself is the only member: its client URL is the one concrete dashboard
+	// address pd accepts (status files are "replicated" to it over HTTP, which fails; pd
+	// ignores that by design)
+	return &clientv3.MemberListResponse{Header: &pb.ResponseHeader{}, Members: []*pb.Member{{ID: 1, Name: "pd1", ClientURLs: []string{selfURL}, PeerURLs: []string{"http://127.0.0.1:20003"}}}}, nil
 }
+
+const selfURL = "http://127.0.0.1:20002"
 func (noCluster) MemberAdd(context.Context, []string) (*clientv3.MemberAddResponse, error) {
 	return nil, errNoCluster
 }
@@ -781,7 +795,11 @@ func (a *alphabet) replication(name string, mod func(*config.ReplicationConfig),
 func (a *alphabet) pdServer(name string, mod func(*config.PDServerConfig), faults ...fault) {
 	gen := func() *config.PDServerConfig { c := a.m.init.pd.Clone(); mod(c); return c }
 	a.add(&op{setter: "SetPDServerConfig", value: name, sec: secPDServer, bad: pdServerDomain(gen()),
-		call: func(s *srvh.Srv) error { return s.SetPDServerConfig(*gen()) },
+		call: func(s *srvh.Srv) error {
+			membersListed = true
+			defer func() { membersListed = false }()
+			return s.SetPDServerConfig(*gen())
+		},
 		expect: func(*values) string {
 			c := gen()
 			if d := c.DashboardAddress; d != "auto" && d != "none" && !strings.HasPrefix(d, "http") {
@@ -932,6 +950,10 @@ func newModel(full bool) *model {
 		c.MaxResetTSGap = typeutil.NewDuration(3600e9)
 	}, w1)
 	P("digit=-1", func(c *pc) { c.FlowRoundByDigit = -1 })
+	P("digit=-1,dashboard=http://9.9.9.9:1", func(c *pc) { c.FlowRoundByDigit, c.DashboardAddress = -1, "http://9.9.9.9:1" })
+	P("dashboard=self", func(c *pc) { c.DashboardAddress = selfURL }, w1)
+	P("digit=-1,dashboard=self", func(c *pc) { c.FlowRoundByDigit, c.DashboardAddress = -1, selfURL })
+	P("digit=-1,dashboard=none", func(c *pc) { c.FlowRoundByDigit, c.DashboardAddress = -1, "none" })
 	P("dashboard=http://9.9.9.9:1", func(c *pc) { c.DashboardAddress = "http://9.9.9.9:1" }, w1)
 	if full {
 		P("digit=minint", func(c *pc) { c.FlowRoundByDigit = math.MinInt64 })
